@@ -252,6 +252,8 @@ theorem addModel_xinv (s : Scene) (w w' : W) (md : Model) (hw : XInv w) (h : add
       · split at h
         · cases h
         · rename_i r hr
+          have hgate := gate_ok s w md _ r hr
+          have hr := hgate.2
           have h1 : XInv r.1 := by
             unfold addModelMaterial at hr
             split at hr
@@ -387,10 +389,10 @@ theorem scene_nodes_ok (s : Scene) (w : W) (hs : SceneOK s) (h : writeScene s = 
     property demands of a document except component alignment — holds of the written document and buffer:
     buffer length, bufferView ranges, accessor ranges and bounds, every primitive (attribute counts, index values),
     every node, scene, material, texture reference, extensions declared -/
-theorem gltf_scene_valid (s : Scene) (w : W) (hs : SceneOK2 s) (h : writeScene s = .ok w) : valid w.doc w.buf = true := by
-  have h1 := scene_valid_low s w hs.1 h
+theorem gltf_scene_valid (s : Scene) (w : W) (hs : SceneOK s) (h : writeScene s = .ok w) : valid w.doc w.buf = true := by
+  have h1 := scene_valid_low s w hs h
   have h2 := scene_prims_ok s w hs h
-  have h3 := scene_nodes_ok s w hs.1 h
+  have h3 := scene_nodes_ok s w hs h
   obtain ⟨h4, h5, h6⟩ := scene_refs_ok s w h
   obtain ⟨h7, h8⟩ := gltf_extensions_declared s w h
   unfold validLow at h1
